@@ -103,7 +103,7 @@ class C04(Sim):
             "seeded scheduler; distinct = distinct (mesh kinds, (operation, format, switches) sequence); non-trivial = >= 1 file saved or planted and >= 1 load or cross-read judged")
     FAULT_KINDS = ["lexical", "config_flip"]
     PROBES = ["wild_coordinates", "polygon_to_triangle_format", "attributes_roundtrip", "query_before_save", "resave_after_load", "stl", "hex", "export_edges_off",
-              "crlf", "comments", "exp_floats", "no_final_newline", "cross_read", "cross_write_load", "save_load", "overwrite", "faceless_stl"]
+              "crlf", "comments", "exp_floats", "no_final_newline", "cross_read", "cross_write_load", "save_load", "overwrite", "faceless_stl", "ignore_elements"]
     QUICK_RUNS = 2500
     THOROUGH_RUNS = 250000
     BLOCK = 25
@@ -114,7 +114,8 @@ class C04(Sim):
                    "sides of the written faces give back exactly the mesh's edge set",
                    "after a normal (non-raw) load, edges and faces derived by completion from what the file expresses are expected exactly; a format that groups elements "
                    "by kind (medit) fixes the order inside each kind only",
-                   "save(..., ignore_elements=...) is not exercised (the statement is about what the format can express)",
+                   "save(..., ignore_elements=...) is exercised on a deep copy of the pooled mesh (it empties the containers it is handed); the expectation is the snapshot "
+                   "minus the ignored kinds",
                    "benign lexical perturbations are limited to those the independent codec lists as legal for the format"]
     COMPONENTS = {"real": ["mouette.mesh.save / load", "mouette.mesh.io.* importers and exporters", "stl_reader (C extension, through a scratch-file shim)"],
                   "stub": ["file system: SimFS (in-process, behind the module-level open seam)", "independent reference codecs models/ref_codecs.py (oracle + cross-writer)"]}
@@ -243,24 +244,27 @@ class C04(Sim):
             return {"c": c, "op": "query", "m": r.below(self._targets()), "which": r.choice(["border", "adjacency", "degree"])}
         fmt = r.choice(cfg["formats"])
         if c == "saver" or (c in ("loader", "xreader") and not self.files):
-            path = "/sim/f%d.%s" % (self.nfile, fmt)
+            path = "f%d.%s" % (self.nfile, fmt)
             old = sorted(p for p, f in self.files.items() if f["fmt"] == fmt and f["origin"] == "save")
             if old and r.chance(0.25):
                 path = r.choice(old)  # overwrite a file written earlier: what was at the path before must not show through
-            return {"c": "saver", "op": "save", "m": r.below(self._targets()), "fmt": fmt, "path": path}
+            ev = {"c": "saver", "op": "save", "m": r.below(self._targets()), "fmt": fmt, "path": path}
+            if r.chance(0.12):
+                ev["ignore"] = r.subset(["edges", "faces", "cells"], 0.5, at_least=1)
+            return ev
         if c == "loader":
             return {"c": c, "op": "load", "path": r.choice(sorted(self.files)), "keep": r.chance(0.3)}
         if c == "xreader":
             saved = sorted(p for p, f in self.files.items() if f["origin"] == "save")
             if not saved:
-                return {"c": "saver", "op": "save", "m": r.below(self._targets()), "fmt": fmt, "path": "/sim/f%d.%s" % (self.nfile, fmt)}
+                return {"c": "saver", "op": "save", "m": r.below(self._targets()), "fmt": fmt, "path": "f%d.%s" % (self.nfile, fmt)}
             return {"c": c, "op": "xread", "path": r.choice(saved)}
         # cross-writer
         legal = [p for p in RC.LEGAL_PERTURBATIONS[fmt] if p in cfg["perturb"]] if cfg["faults_on"] else []
         opts = {p: True for p in legal if r.chance(0.6)}
         if fmt == "stl" and opts:
             opts = {}  # binary STL has no lexical layer
-        return {"c": c, "op": "plant", "m": r.below(self._targets()), "fmt": fmt, "path": "/sim/x%d.%s" % (self.nfile, fmt), "opts": opts, "pseed": r.below(1 << 20)}
+        return {"c": c, "op": "plant", "m": r.below(self._targets()), "fmt": fmt, "path": "x%d.%s" % (self.nfile, fmt), "opts": opts, "pseed": r.below(1 << 20)}
 
     def applicable(self, ev):
         op = ev["op"]
@@ -387,17 +391,31 @@ class C04(Sim):
         if op == "save":
             m = self._mesh(ev["m"])
             fmt = ev["fmt"]
+            ign = [k for k in ev.get("ignore", []) if hasattr(m, k)]
+            if "faces" in ign and hasattr(m, "cells") and "cells" not in ign:
+                ign.remove("faces")  # (a volume without its faces but with its cells is not a meaningful request)
+            full_kind = self._kinds(self.snapshot(m)) if ign else None
+            if ign:
+                # save(..., ignore_elements=...) empties the containers it is handed: it is given a deep copy, so that the pool survives
+                m = M.mesh.copy(m, copy_attributes=True)
+                self.probes["ignore_elements"] += 1
             snap = self.snapshot(m)
-            kinds = self._kinds(snap)
+            for k in ign:
+                snap[k] = []
+                for sname in {"edges": ["edges"], "faces": ["faces", "face_corners"], "cells": ["cells", "cell_corners", "cell_faces"]}[k]:
+                    snap["attributes"].pop(sname, None)
+                if k == "edges":
+                    snap["hard"] = None
+            kinds = self._kinds(snap) if not ign else "ign[%s]/%s" % (",".join(ign), full_kind)
             if ev["m"] >= len(self.meshes):
                 self.probes["resave_after_load"] += 1
             overwrite = ev["path"] in self.files
             if overwrite:
                 self.probes["overwrite"] += 1
             nwrites = self.fs.writes
-            o = call(M.mesh.save, m, ev["path"])
+            o = call(M.mesh.save, m, self.fs.root + ev["path"], set(ign)) if ign else call(M.mesh.save, m, self.fs.root + ev["path"])
             ac = "%s/%s" % (fmt, kinds)
-            if not o.ok or ev["path"] not in self.fs.files or self.fs.writes == nwrites:
+            if not o.ok or (self.fs.root + ev["path"]) not in self.fs.files or self.fs.writes == nwrites:
                 if not o.ok:
                     self.exc_violation("every-mesh-every-writable-format", "save", o, ac, "save(%s mesh, %r) raised" % (kinds, ev["path"]))
                 self.violation("every-mesh-every-writable-format", "save", "wrong_value", "no-file", ac + ("/overwrite" if overwrite else ""),
@@ -433,7 +451,7 @@ class C04(Sim):
             mesh = {"vertices": snap["vertices"], "edges": snap["edges"], "faces": snap["faces"], "cells": snap["cells"], "attributes": snap["attributes"]}
             ex = RC.project(fmt, mesh)
             data = RC.write(fmt, ex, seed=ev["pseed"], **ev["opts"])
-            self.fs.files[ev["path"]] = data
+            self.fs.files[self.fs.root + ev["path"]] = data
             self.nfile += 1
             self.files[ev["path"]] = {"fmt": fmt, "snap": snap, "expressed": RC.core(RC.read(fmt, data)) if fmt != "stl" else ex, "origin": "plant", "kinds": self._kinds(snap)}
             for p in ev["opts"]:
@@ -450,7 +468,7 @@ class C04(Sim):
             self.seq.append("xread:" + fmt)
             ac = "%s/%s" % (fmt, info["kinds"])
             try:
-                got = RC.core(RC.read(fmt, self.fs.files[ev["path"]]))
+                got = RC.core(RC.read(fmt, self.fs.files[self.fs.root + ev["path"]]))
             except RC.FormatError as e:
                 self.violation("means-the-same-to-an-independent-reader", "xread", "wrong_value", "unreadable", ac,
                                "%s written by mouette is not a well-formed %s file for an independent reader: %s" % (ev["path"], fmt, e))
@@ -479,7 +497,7 @@ class C04(Sim):
             self.probes["save_load" if info["origin"] == "save" else "cross_write_load"] += 1
             self.njudged += 1
             self.seq.append("load:%s:%s" % (fmt, info["origin"]))
-            o = call(M.mesh.load, ev["path"])
+            o = call(M.mesh.load, self.fs.root + ev["path"])
             ac = "%s/%s/%s" % (fmt, info["origin"], info["kinds"])
             if not o.ok:
                 pert = "+".join(sorted(ev.get("opts", {}))) if False else ""
